@@ -892,6 +892,8 @@ def check_case(case, props):
     decl = case['decl']
     fam = case['family']
     tol = TOL[decl['cone']]
+    if decl.get('ints'):
+        tol = max(tol, 3e-4)          # the engines' default relative MIP gap is 1e-4: two correct answers may differ by that much
     viols = []
     stats = {'runs': 1, 'schedules': 0, 'events': 0, 'solves_healthy': {}, 'solves_faulted': {},
              'faults_fired': {}, 'probes': {}, 'inconclusive': {}, 'sim_seconds': 0.0, 'l3_checks': 0,
@@ -1021,7 +1023,10 @@ def check_case(case, props):
                     if out['sol'] == 'opt':
                         healthy_solves += 1
                         t3 = tol if k == 'solve' else max(tol, 2e-3)
-                        if not close(out['obj'], outs['obj'], t3):
+                        if not close(out['obj'], outs['obj'], t3) and \
+                                (engine_at_fault(it, decl['model'], eng, tol) or engine_at_fault(it_s, decl['model'], eng, tol)):
+                            inconc('engine_defect:' + eng)
+                        elif not close(out['obj'], outs['obj'], t3):
                             viol('L3-objective', '%s(%s) after %d steps of schedule #%d: incremental %.9g vs '
                                  'from-scratch build of the same declared prefix %.9g'
                                  % (k, eng, len(done_sids), si, out['obj'], outs['obj']), executed, sched=si)
